@@ -82,8 +82,10 @@ def _form_rings_bilocally(mol: 'MolecularGraph', rings: list):
 def _tokenize_selfies(selfies: str, compatible: bool):
     # the decoder's token generator: [nop] is dropped before anything else sees a symbol, and the tokenizer's
     # ValueError (hanging '[') leaves only as DecoderError
-    requires(not compatible)      # with compatible=True each symbol additionally passes through modernize_symbol
+    # with compatible=True each symbol additionally passes through modernize_symbol, whose contract covers ASCII
+    # symbols of bounded length (the atom parser's domain)
+    requires(implies(compatible, ascii_str(selfies) and len(selfies) <= 3990))
     raises(DecoderError)
     yields_type('str')
-    yields(typed(item, 'str') and item != "[nop]", tag="C13:nop-never-reaches-the-derivation")
+    yields(typed(item, 'str') and implies(not compatible, item != "[nop]"), tag="C13:nop-never-reaches-the-derivation")
     invariant("for symbol in symbol_iter", True, tag="none-needed")
